@@ -21,9 +21,9 @@ POSITIONS = ['cmd_arg', 'cmd_env', 'str_env', 'step_arg', 'step_env', 'test_arg'
              'test_env', 'drv_arg', 'copt_list', 'copt_str', 'lopt_list',
              'lopt_str', 'define', 'gopt', 'glopt', 'tool_word', 'cmd_word',
              'file_arg', 'sym_arg',
-             'incdir', 'dep_link', 'symgen_arg']
+             'incdir', 'dep_link', 'symgen_arg', 'gopt_rep', 'wa_link']
 PATHLIKE = ('cmd_word', 'file_arg', 'incdir', 'sym_arg', 'symgen_arg')
-GLOBAL = ('gopt', 'glopt')
+GLOBAL = ('gopt', 'glopt', 'gopt_rep')
 # an argument inside the compiler command taken from $CC (one project each)
 SINGLE = ('tool_word',)
 
@@ -195,6 +195,21 @@ def write_project(root, slots, backend):
         elif s.pos == 'gopt':
             L.append("global_options(%r, lang='c')" % (
                 ['-DGB=' + i, w, '-DGE=' + i],))
+        elif s.pos == 'gopt_rep':
+            # the same words given to two calls of global_options: both
+            # calls' words arrive (nothing is "already there")
+            for sfx in ('A', ''):
+                L.append("global_options(%r, lang='c')" % (
+                    ['-DGB=' + i + sfx, '-Xrep', w, '-DGE=' + i + sfx],))
+        elif s.pos == 'wa_link':
+            # a shared library made only of a whole archive: the archive is
+            # named once on the link line
+            open(os.path.join(src, 's%s.c' % i), 'w').close()
+            L.append("_i = static_library(%r, [%r])" % ('I' + i, 's%s.c' % i))
+            L.append("shared_library(%r, [], libs=[whole_archive(_i)], "
+                     "link_options=%r)" % ('O' + i, ['-DVB=' + i, w,
+                                                     '-DVE=' + i]))
+            targets.append('libO%s.so' % i)
         elif s.pos == 'glopt':
             L.append("global_link_options(%r, family='native')" % (
                 ['-DGB=' + i, w, '-DGE=' + i],))
@@ -468,7 +483,21 @@ def run_project(slots, backend, ninja=None):
                     # argument (-x) is what $CC added
                     ev['delivered'] = [syms(x) for x in
                                        a[1:a.index('-x') if '-x' in a else 2]]
+            elif s.pos == 'wa_link':
+                own = 'libO%s.so' % i
+                ev['declared'] = [syms('libI%s.a' % i)]
+                rs = [r for r in links if '-o' in r['argv'] and
+                      os.path.basename(r['argv'][r['argv'].index('-o') + 1])
+                      == own]
+                if rs:
+                    ev['started'] = True
+                    ev['delivered'] = [syms(os.path.basename(x))
+                                       for x in rs[0]['argv']
+                                       if os.path.basename(x) ==
+                                       'libI%s.a' % i]
             elif s.pos in GLOBAL:
+                if s.pos == 'gopt_rep':
+                    ev['declared'] = [syms('-Xrep'), syms(w)]
                 pool = links if s.pos == 'glopt' else compiles
                 rs = [r for r in pool if ('-DGB=' + i) in r['argv']]
                 if rs:
